@@ -42,29 +42,30 @@ type poolInfo struct {
 
 // asmReplayer replays AsmCases on the real code.
 type asmReplayer struct {
-	c           *Ctx
-	u           *Universe
-	pool        *inprocPool
-	root        string // sandbox CRS root shared by cases that need no files
-	budget      int64  // maximum number of cases to replay (sampling), 0 = all
-	cliEvery    int64  // every n-th replayed case additionally goes through the CLI
-	seen        int64
-	replayed    int64
-	cliRuns     int64
-	mism        int64
-	sbSeq       int64
-	wg          sync.WaitGroup
-	ch          chan AsmCase
-	errMu       sync.Mutex
-	err         error
-	keepMod     uint64 // keep a case when hash%keepMod==0 (1 = all)
-	sharedFiles map[string][]string
-	nontriv     func(cs *AsmCase) bool
-	onOutput    func(cs *AsmCase, out string) // called with every successfully generated regex
-	traceMu     sync.Mutex
-	traceFiles  []string // Direction B: traces recorded by the CLI runs
-	traceSrc    []string
-	traceSeq    int64
+	c            *Ctx
+	u            *Universe
+	pool         *inprocPool
+	root         string // sandbox CRS root shared by cases that need no files
+	budget       int64  // maximum number of cases to replay (sampling), 0 = all
+	cliEvery     int64  // every n-th replayed case additionally goes through the CLI
+	seen         int64
+	replayed     int64
+	cliRuns      int64
+	mism         int64
+	sbSeq        int64
+	wg           sync.WaitGroup
+	ch           chan AsmCase
+	errMu        sync.Mutex
+	err          error
+	keepMod      uint64 // keep a case when hash%keepMod==0 (1 = all)
+	sharedFiles  map[string][]string
+	sharedConfig string
+	nontriv      func(cs *AsmCase) bool
+	onOutput     func(cs *AsmCase, out string) // called with every successfully generated regex
+	traceMu      sync.Mutex
+	traceFiles   []string // Direction B: traces recorded by the CLI runs
+	traceSrc     []string
+	traceSeq     int64
 }
 
 func (c *Ctx) newAsmReplayer(keepMod uint64, cliEvery int64) (*asmReplayer, error) {
@@ -139,6 +140,7 @@ func (r *asmReplayer) onCase(raw []byte) error {
 			}
 		}
 		r.c.Cov["pool_entries_cross_checked"] = len(pi.P.Pool)
+		r.sharedConfig = pi.P.Config
 		if pi.P.Config != "" {
 			// toolchain.yaml of this model instance (absent when empty)
 			if err := writeTree(r.root, Tree{"regex-assembly/toolchain.yaml": pi.P.Config}); err != nil {
@@ -423,7 +425,8 @@ func (r *asmReplayer) replay(cs AsmCase) error {
 	if key := r.knownSignature(&cs, obs); key != "" && r.c.knownFinding(key, strings.Join(cs.Lines, " / ")) {
 		return nil
 	}
-	r.c.violation("assembly", map[string]any{"program": cs.Lines, "files": r.filesOf(&cs), "config": cs.Config, "flags": cs.Flags,
+	r.c.violation("assembly", map[string]any{"universe": map[string]any{"sigma": r.u.Sigma, "n": r.u.N, "symmap": r.u.Map, "config": r.sharedConfig},
+		"program": cs.Lines, "files": r.filesOf(&cs), "config": cs.Config, "flags": cs.Flags,
 		"expected_language": cs.Lang, "observed": obs, "why": verdict, "spec_text": cs.ITxt, "expect": cs.Expect, "hand_inlined": cs.Same})
 	return nil
 }
@@ -500,4 +503,61 @@ func hasUnescapedDot(s string) bool {
 func jsonStr(v any) string {
 	b, _ := json.Marshal(v)
 	return string(b)
+}
+
+// replayAssembly re-executes one recorded assembly violation through the CLI.
+func replayAssembly(c *Ctx, detail map[string]any) (bool, string, error) {
+	b, _ := json.Marshal(detail)
+	var d struct {
+		Universe struct {
+			Sigma  []string          `json:"sigma"`
+			N      int               `json:"n"`
+			SymMap map[string]string `json:"symmap"`
+			Config string            `json:"config"`
+		} `json:"universe"`
+		Program []string            `json:"program"`
+		Files   map[string][]string `json:"files"`
+		Config  string              `json:"config"`
+		Flags   []string            `json:"flags"`
+		Lang    []string            `json:"expected_language"`
+		Expect  string              `json:"expect"`
+		Same    []string            `json:"hand_inlined"`
+	}
+	if err := json.Unmarshal(b, &d); err != nil {
+		return false, "", err
+	}
+	root, err := c.newSandbox("replay")
+	if err != nil {
+		return false, "", err
+	}
+	t := Tree{"regex-assembly/": ""}
+	for p, ls := range d.Files {
+		t["regex-assembly/"+p] = strings.Join(ls, "\n") + "\n"
+	}
+	cfg := d.Config
+	if cfg == "" {
+		cfg = d.Universe.Config
+	}
+	if cfg != "" {
+		t["regex-assembly/toolchain.yaml"] = cfg
+	}
+	if err := writeTree(root, t); err != nil {
+		return false, "", err
+	}
+	u := newUniverse(d.Universe.Sigma, d.Universe.N)
+	for k, v := range d.Universe.SymMap {
+		u.Map[k] = v
+	}
+	r := &asmReplayer{c: c, u: u, root: root}
+	cs := AsmCase{Lines: d.Program, Flags: d.Flags, Lang: d.Lang, Expect: d.Expect, Same: d.Same}
+	v, obs, err := r.verdictFor(&cs, root, true)
+	if err != nil {
+		return false, "", err
+	}
+	if v != "" {
+		if key := r.knownSignature(&cs, obs); key != "" && c.knownFinding(key, strings.Join(cs.Lines, " / ")) {
+			return false, "known finding " + key, nil
+		}
+	}
+	return v != "", v, nil
 }
